@@ -212,6 +212,9 @@ def server_cfg(c):
     elif any(shown(n).startswith('diffie-hellman-group-exchange-') for n in c['kex']):
         # a server that advertises group exchange serves it: an unremarkable 4096-bit group (no size note is due for it)
         cfg['gex'] = {'style': 'roundup', 'moduli': [4096]}
+    # host-key types the server advertises but never presents: it closes the probe connection instead of answering
+    for t in c.get('withheld', ()):
+        cfg['hostkeys'].pop(t, None)
     return cfg
 
 
